@@ -115,15 +115,16 @@ theorem changed_of_needsSeen {s : St} (h : Inv s) (t : Name) (p : Path)
           simp [depVerdict, hag.2.2.2.2 p]
         | some e =>
           rw [hs] at hag hn
-          obtain ⟨_, _, hck, _, hfst⟩ := hag
+          obtain ⟨_, _, hck, hdeps', hfst⟩ := hag
           simp only [Bool.and_eq_true, decide_eq_true_eq, Bool.not_eq_true'] at hn
           obtain ⟨sm, hsaw, hstate⟩ := hfst p hn.1
+          have hns : notSaved (s.rcd t) p = false := by simp [notSaved, hdeps', hn.1]
           have hc : e.checker = s.checker := by
             simp only [checkerChanged, hck] at hC'
             simpa using hC'
           have hu := hn.2
           simp only [depUnmod, hcur, hsaw, unmodBy, beq_eq_false_iff_ne] at hu
-          simp only [depVerdict, hstate, hc]
+          simp only [depVerdict, hstate, hns, Bool.false_eq_true, if_false, hc]
           exact mod_cases _ hu (checkModified_stateOf_ne_crash _ _ _)
 
 /-- a dependency the last recorded execution did not have and for which the record holds no (stale) state is in
